@@ -6,10 +6,10 @@ CONSTANT Family   \* "c13" | "c14set" | "c14list" | "c19"
 VARIABLE case
 
 \* --- C13
-Rels == {"/a/b", "/b", "/zz", "/l[k=1]/k", "/a", "/a/c"}
+Rels == {"/a/b", "/b", "/zz", "/l[k=1]/k", "/a", "/a/c", "/k", "/x"}
 Ops13 == [op : {"update", "delete"}, target : {"", "t1", "tX"}, rel : Rels, val : {"1", "2"}]
 OpSeqs13 == {<< >>} \cup {<<a>> : a \in Ops13} \cup {<<a, b>> : a \in Ops13, b \in Ops13}
-Cases13 == [kind : {"admission"}, limit : {0, 1, 2}, ext : {"none", "sync", "bad"}, ptarget : {"", "t2"}, pelems : {"", "/a"}, ops : OpSeqs13]
+Cases13 == [kind : {"admission"}, limit : {0, 1, 2}, ext : {"none", "sync", "bad"}, ptarget : {"", "t2"}, pelems : {"", "/a", "/l[k=1]"}, ops : OpSeqs13]
 
 \* --- C14
 Tokens == {"admin", "adm", "admin2", "ops", "", "other", "t1", "AetherROCAdmin"}
